@@ -564,6 +564,22 @@ def e2e_cases(ctx: Ctx, n: int, label: str) -> List[Dict[str, Any]]:
     cases = []
     for _ in range(n):
         c = argwire.gen_case(rng, trigger_names=0.0, harmless_names=0.2, want_results=True, n_ops=rng.randint(1, 2))
+        # two variables that process_name maps to one parameter (`response`/`_response`, ...) are C03-F4/C18's
+        # region (duplicate argument -> SyntaxError at import) and say nothing about custom scalars: keep the first
+        changed = False
+        for op in c["ops"]:
+            seen: set = set()
+            kept = []
+            for d in op["defs"]:
+                key = d["name"].replace("_", "").lower()
+                if key in seen:
+                    changed = True
+                    continue
+                seen.add(key)
+                kept.append(d)
+            op["defs"] = kept
+        if changed:
+            argwire.finish_case(c)
         c["calls"] = c03.make_calls(rng, c, 2)
         for call in c["calls"]:
             call["n_corrupt"] = 0
